@@ -230,6 +230,24 @@ CONC = {
                 quick_episodes=350, thorough_episodes=4000,
                 rule=SLICE_JOB_RULE, trusted_base=TB_CONC,
                 assumptions=['jobs rebuilt by parseToJob from stored entries have no handle; their status word starts from whatever the entry says']),
+    'C19': dict(module='Properties.C19', file='Properties/C19.v', slices=['hb', 'lock'],
+                families=['apimix', 'lifecycle', 'burst', 'cancel', 'batch', 'pool', 'persist', 'dist', 'multiq', 'saturate', 'lifeseq', 'recover', 'order'],
+                quick_episodes=250, thorough_episodes=3000, crash_props=['C03'],
+                native=dict(scenarios=['racemix'], rounds=60, thorough_rounds=1500),
+                rule='episodes = scenario programs run under the controlled scheduler on the instrumented library (see C01), plus family apimix (2..3 client goroutines issuing random sequences over the '
+                     'whole public surface: submissions, batch submissions, handle reads, Close, Purge, Pause / Resume / Stop / Restart / TunePool, context cancel, Errs / Context / counters / metrics) so that '
+                     'every pair of API calls overlaps; the rewriter also logs every plain (non-atomic) read and write of the watched library fields (list links and length, manager items and cursor, '
+                     'response slot, worker channels / tickers / context, queue chunk pointers, heap slice and insertion counter, job ack id and queue); each execution is reduced to accesses + '
+                     'acquire / release operations (table in go/harness/root/zz_verif_hb_test.go) and judged by the extracted, proved vector-clock detector race_check (traces_validated_against_impl '
+                     'counts these blocks and the per-mutex lock-discipline blocks replayed on coq/Lockset.v); an independent Go detector must agree with it on every execution; native mode: the '
+                     'unmodified library under the Go race detector, 60 (thorough 1500) rounds of eight concurrent API callers incl. two overlapping controllers; distinct_nontrivial = distinct schedule hashes',
+                trusted_base=TB_CONC + ['the watch list of plain fields in go/instr/main.go (a field missing from it is only covered by the native race-detector runs)',
+                                        'the acquire / release table of the projection (Go memory model: mutex, rwmutex, atomics, channels, go statement, WaitGroup, sync.Pool, context cancellation)',
+                                        'Go race detector (native mode)'],
+                assumptions=['the theorems say: the detector is exact on every execution, and a location whose accesses all follow the lock discipline cannot race on any schedule; that every execution of every client program is race-free is NOT a theorem — it is decided per explored execution (the property\'s own quantifier text), by the proved detector, the lock-discipline replay (which also flags unguarded accesses that happened to be ordered on the explored schedule) and the Go race detector',
+                             'a plain access is logged at the start of the statement that contains it',
+                             'locations handed over rather than locked (job.ackId, job.queue; anything touched only by its creator before publication) are judged by happens-before only',
+                             'fields not on the watch list, the user\'s payload values, and memory of the Go runtime / standard library are outside the instrumented check (native mode covers them on the schedules the OS produces)']),
     'C18': dict(module='Properties.C18', file='Properties/C18.v', slices=['pool', 'disp'],
                 families=['pool', 'lifecycle', 'lifeseq', 'burst', 'saturate'],
                 quick_episodes=300, thorough_episodes=4000,
